@@ -21,7 +21,7 @@ from mc.respgen import encode, frame, payload
 from mc.simnet import EOF, Net, Server, SimStall
 
 NS = [1, 3, 64, 1000]
-PROGRAMS = [("read",)] + [("readn", n) for n in NS] + [("read1n", n) for n in NS] + [("readinto", n) for n in NS] + \
+PROGRAMS = [("read",)] + [("readn", n) for n in NS] + [("read1n", n) for n in NS] + [("read1n", None)] + [("readinto", n) for n in NS] + \
            [("stream", n) for n in NS] + [("read_chunked", n) for n in [None] + NS] + [("iter",), ("preload",), ("drain",)] + \
            [("prefix", a, b) for a in (("read", 1), ("read", 3), ("read1", 3), ("readinto", 3), ("read", 0))
             for b in (("read", 2), ("read1", 64), ("read", None))]
@@ -286,7 +286,7 @@ def run_program(prog, head, wire, chunked, keep_open=False):
                         pieces += d
                 elif kind == "read1n":
                     while True:
-                        d = r.read1(prog[1], decode_content=True)
+                        d = r.read1(prog[1], decode_content=True) if prog[1] is not None else r.read1(decode_content=True)
                         if not d:
                             break
                         pieces += d
